@@ -33,6 +33,8 @@ type Obl struct {
 	// Trivial marks instances that carry no non-trivial fact (e.g. a field with
 	// no write at all); they are not counted in distinct_nontrivial.
 	Trivial bool `json:"trivial,omitempty"`
+	// Count: how many times this verdict was reached (paths, sites)
+	Count int `json:"count,omitempty"`
 }
 
 // Report collects what one check run covered.
@@ -67,6 +69,16 @@ func NewReport(prop, tier string, seed int) *Report {
 
 // Add records a rule instance.
 func (r *Report) Add(o Obl) {
+	// the same verdict for the same (rule, construct) reached again (e.g. on
+	// another path) is merged: first occurrence kept, repetitions counted
+	for i := range r.Obls {
+		x := &r.Obls[i]
+		if x.Rule == o.Rule && x.Construct == o.Construct && x.Status == o.Status && x.Control == o.Control {
+			x.Count++
+			return
+		}
+	}
+	o.Count = 1
 	r.Obls = append(r.Obls, o)
 }
 
